@@ -353,6 +353,7 @@ func Exec(sc *Scenario) *Run {
 		tr.Add(e)
 	}
 	r.RC = retry
+	var submitFromHandler func(n int, st Step)
 	handler := func(h int) mqtt.Handler {
 		if h == 0 {
 			return nil
@@ -361,7 +362,13 @@ func Exec(sc *Scenario) *Run {
 			seq := tr.Add(memnet.Event{Kind: memnet.KHEnter, S: m.Topic, S2: string(m.Payload), N: h})
 			tr.Mu.Lock()
 			r.Handled = append(r.Handled, Handled{H: h, Topic: m.Topic, Payload: string(m.Payload), QoS: byte(m.QoS), Seq: seq})
+			nh := len(r.Handled)
 			tr.Mu.Unlock()
+			if h >= 90 && h < 100 && !strings.HasPrefix(m.Topic, "t/re-") {
+				// a responding handler: it publishes (QoS 1 or 2) through the retrying client from inside the
+				// reader goroutine; the response is an accepted request like any other
+				submitFromHandler(nh, Step{Op: "pub", QoS: byte(1 + nh%2), Tag: fmt.Sprintf("re-%d", nh)})
+			}
 		})
 	}
 
@@ -497,6 +504,8 @@ func Exec(sc *Scenario) *Run {
 		}
 		return sb
 	}
+
+	submitFromHandler = func(n int, st Step) { submit(3000+n, st) }
 
 	// steering: run SteerSteps while the reconnect goroutine is parked
 	steerDone := false
